@@ -32,11 +32,15 @@ Record gwriter := {
   g_pc : gpc;
   g_ops : list op;          (* operations not finished yet; the first one is in progress when parked *)
   g_res : list op_result;   (* results so far, oldest first *)
-  g_map : N                 (* length of this writer's mapping *)
+  g_map : N;                (* length of the mapping the operation in progress works on *)
+  g_orig : N                (* length of the mapping the writer holds between operations
+                               (what a failed newCounter leaves it with) *)
 }.
 
 Definition gw (pc : gpc) (ops : list op) (res : list op_result) (m : N) : gwriter :=
-  {| g_pc := pc; g_ops := ops; g_res := res; g_map := m |}.
+  {| g_pc := pc; g_ops := ops; g_res := res; g_map := m; g_orig := m |}.
+Definition gwo (pc : gpc) (ops : list op) (res : list op_result) (m orig : N) : gwriter :=
+  {| g_pc := pc; g_ops := ops; g_res := res; g_map := m; g_orig := orig |}.
 
 (* outcome of running one operation as far as it goes without a file-system call *)
 Inductive outcome :=
@@ -122,14 +126,15 @@ Section Writer.
     | o :: rest =>
         match start_op o map file with
         | Fin f r m => run_ops_g rest f (res ++ [r]) m
-        | Park f pc m => (f, gw pc ops res m)
+        | Park f pc m => (f, gwo pc ops res m map)
         end
     end.
 
-  (* the operation in progress (head of ops) went on to out *)
-  Definition resume (out : outcome) (ops : list op) (res : list op_result) : bytes * gwriter :=
+  (* the operation in progress (head of ops) went on to out; orig: the mapping
+     the writer held when the operation began *)
+  Definition resume (out : outcome) (ops : list op) (res : list op_result) (orig : N) : bytes * gwriter :=
     match out with
-    | Park f pc m => (f, gw pc ops res m)
+    | Park f pc m => (f, gwo pc ops res m orig)
     | Fin f r m =>
         match ops with
         | _ :: rest => run_ops_g rest f (res ++ [r]) m
@@ -139,71 +144,84 @@ Section Writer.
 
   Definition cur_op (w : gwriter) : op := hd (OpExtend 0) (g_ops w).
 
+  (* the file-system call the writer is parked before fails (errno, no effect):
+     openMapped fails during creation, the operation in progress fails
+     otherwise and the writer goes on with the mapping it held before it *)
+  Definition gfault_w (file : bytes) (w : gwriter) : bytes * gwriter :=
+    match g_pc w with
+    | GCreate _ => (file, gwo GFailed (g_ops w) (g_res w) (g_map w) (g_orig w))
+    | GRemap _ _ _ | GExt _ _ _ _ => resume (Fin file RFail (g_orig w)) (g_ops w) (g_res w) (g_orig w)
+    | GDone | GFailed => (file, w)
+    end.
+
   (* one step of one writer; h is the header all writers expect *)
   Definition gstep_w (h : bytes) (file : bytes) (w : gwriter) : bytes * gwriter :=
     let o := cur_op w in
     let name := op_name o in
     match g_pc w with
-    | GCreate CStart => (file, gw (GCreate CStat) (g_ops w) (g_res w) (g_map w))
+    | GCreate CStart => (file, gwo (GCreate CStat) (g_ops w) (g_res w) (g_map w) (g_orig w))
     | GCreate CStat =>
-        (file, gw (GCreate (if len file <? c_minFileLen then CWriteHdr else CMap)) (g_ops w) (g_res w) (g_map w))
-    | GCreate CWriteHdr => (write_at file 0 h, gw (GCreate CWriteTail) (g_ops w) (g_res w) (g_map w))
+        (file, gwo (GCreate (if len file <? c_minFileLen then CWriteHdr else CMap)) (g_ops w) (g_res w) (g_map w) (g_orig w))
+    | GCreate CWriteHdr => (write_at file 0 h, gwo (GCreate CWriteTail) (g_ops w) (g_res w) (g_map w) (g_orig w))
     | GCreate CWriteTail =>
-        (write_at file (c_minFileLen - 4) [0; 0; 0; 0], gw (GCreate CStat2) (g_ops w) (g_res w) (g_map w))
-    | GCreate CStat2 => (file, gw (GCreate CMap) (g_ops w) (g_res w) (g_map w))
+        (write_at file (c_minFileLen - 4) [0; 0; 0; 0], gwo (GCreate CStat2) (g_ops w) (g_res w) (g_map w) (g_orig w))
+    | GCreate CStat2 => (file, gwo (GCreate CMap) (g_ops w) (g_res w) (g_map w) (g_orig w))
     | GCreate CMap =>
         if has_prefix file h then run_ops_g (g_ops w) file [] (len file)
-        else (file, gw GFailed (g_ops w) (g_res w) (g_map w))
+        else (file, gwo GFailed (g_ops w) (g_res w) (g_map w) (g_orig w))
     | GCreate _ => (file, w)
     | GRemap k tries lim =>
-        if k <? 2 then (file, gw (GRemap (k + 1) tries lim) (g_ops w) (g_res w) (g_map w))
+        if k <? 2 then (file, gwo (GRemap (k + 1) tries lim) (g_ops w) (g_res w) (g_map w) (g_orig w))
         else
           let newlen := len file in
-          if negb (has_prefix file h) then resume (Fin file RFail (g_map w)) (g_ops w) (g_res w)
-          else if newlen <? lim then resume (Fin file RCorrupt (g_map w)) (g_ops w) (g_res w)
-          else resume (after_lookup o newlen file name (tries + 1)) (g_ops w) (g_res w)
+          if negb (has_prefix file h) then resume (Fin file RFail (g_orig w)) (g_ops w) (g_res w) (g_orig w)
+          else if newlen <? lim then resume (Fin file RCorrupt (g_orig w)) (g_ops w) (g_res w) (g_orig w)
+          else resume (after_lookup o newlen file name (tries + 1)) (g_ops w) (g_res w) (g_orig w)
     | GExt k e head needw =>
         let e' := round_u32 e c_pageSize in
         if k =? 0 then
           let nw := len file <? e' in
-          (file, gw (GExt (if nw then 1 else 2) e head nw) (g_ops w) (g_res w) (g_map w))
+          (file, gwo (GExt (if nw then 1 else 2) e head nw) (g_ops w) (g_res w) (g_map w) (g_orig w))
         else if k =? 1 then
-          (write_at file (e' - 4) [0; 0; 0; 0], gw (GExt 2 e head needw) (g_ops w) (g_res w) (g_map w))
-        else if k <? 4 then (file, gw (GExt (k + 1) e head needw) (g_ops w) (g_res w) (g_map w))
+          (write_at file (e' - 4) [0; 0; 0; 0], gwo (GExt 2 e head needw) (g_ops w) (g_res w) (g_map w) (g_orig w))
+        else if k <? 4 then (file, gwo (GExt (k + 1) e head needw) (g_ops w) (g_res w) (g_map w) (g_orig w))
         else
           let newlen := len file in
-          if negb (has_prefix file h) then resume (Fin file RFail (g_map w)) (g_ops w) (g_res w)
-          else if newlen <? e' then resume (Fin file RCorrupt (g_map w)) (g_ops w) (g_res w)
-          else resume (alloc o newlen file name head) (g_ops w) (g_res w)
+          if negb (has_prefix file h) then resume (Fin file RFail (g_orig w)) (g_ops w) (g_res w) (g_orig w)
+          else if newlen <? e' then resume (Fin file RCorrupt (g_orig w)) (g_ops w) (g_res w) (g_orig w)
+          else resume (alloc o newlen file name head) (g_ops w) (g_res w) (g_orig w)
     | GDone | GFailed => (file, w)
     end.
 End Writer.
 
 Record gstate := { g_file : bytes; g_ws : list gwriter }.
 
-Definition gstep (hdr : N) (h : bytes) (st : gstate) (i : nat) : gstate :=
+Definition gstep (hdr : N) (h : bytes) (st : gstate) (i : nat) (fault : bool) : gstate :=
   match nth_error (g_ws st) i with
   | None => st
-  | Some w => let '(f, w') := gstep_w hdr h (g_file st) w in
+  | Some w => let '(f, w') := if fault then gfault_w hdr (g_file st) w else gstep_w hdr h (g_file st) w in
               {| g_file := f; g_ws := upd_nth (g_ws st) i w' |}
   end.
 
 (* the run, with the allocation limit and the file length after every step *)
-Fixpoint grun (hdr : N) (h : bytes) (st : gstate) (sched : list nat) (trace : list (N * N))
+(* fault: Some k = the file-system call of the k-th step (from here) fails *)
+Fixpoint grun (hdr : N) (h : bytes) (st : gstate) (sched : list nat) (fault : option nat) (trace : list (N * N))
   : gstate * list (N * N) :=
   match sched with
   | [] => (st, rev trace)
   | i :: t =>
-      let st' := gstep hdr h st i in
-      grun hdr h st' t ((get32 (g_file st') hdr, len (g_file st')) :: trace)
+      let now := match fault with Some O => true | _ => false end in
+      let later := match fault with Some (S k) => Some k | _ => None end in
+      let st' := gstep hdr h st i now in
+      grun hdr h st' t later ((get32 (g_file st') hdr, len (g_file st')) :: trace)
   end.
 
-Definition grace (meta file : bytes) (progs : list (list op)) (sched : list nat)
+Definition grace (meta file : bytes) (progs : list (list op)) (sched : list nat) (fault : option nat)
   : option (gstate * list (N * N)) :=
   match mapped_header meta with
   | Some h =>
       let ws := map (fun p => gw (GCreate CStart) p [] 0) progs in
-      Some (grun (u32 (len h)) h {| g_file := file; g_ws := ws |} sched [])
+      Some (grun (u32 (len h)) h {| g_file := file; g_ws := ws |} sched fault [])
   | None => None
   end.
 
